@@ -17,10 +17,11 @@ Record quirks := MkQuirks {
   q_keep_pending : bool;          (* D18a: a new assembly start leaves Store.pendingSnapshot in place *)
   q_splitters_accumulate : bool;  (* D30: every start appends to Store.sourceSplitters; finishSnapshot panics unless exactly one *)
   q_keep_slot : bool;             (* D18b: Operator.HandleDeploy leaves o.checkpoint in place *)
-  q_keep_savepoint : bool         (* seeded C15-3: AbortPendingCheckpoint keeps a pending snapshot flagged as a savepoint *)
+  q_keep_savepoint : bool;        (* seeded C15-3: AbortPendingCheckpoint keeps a pending snapshot flagged as a savepoint *)
+  q_ticker_once : bool            (* seeded C15r2-1: the checkpoint ticker is created only if none was ever created *)
 }.
-Definition current : quirks := MkQuirks false false false false.
-Definition original : quirks := MkQuirks true true true false.
+Definition current : quirks := MkQuirks false false false false false.
+Definition original : quirks := MkQuirks true true true false false.
 
 Inductive status := Init | Paused | Starting | Running.
 Definition status_code (s : status) : N :=
@@ -56,18 +57,27 @@ Record st := MkSt {
   stat : status;
   a_ops : list N; a_srs : list N;       (* j.assembly *)
   dep_ck : N;                           (* checkpoint the start in flight read with CurrentCheckpoint *)
-  sto : store
+  sto : store;
+  ticker : N                            (* j.checkpointTicker: 0 = never created, 1 = armed, 2 = stopped *)
 }.
 
 Record cfg := MkCfg { wc : nat; deadline : N; qk : quirks }.
 
 Definition init_store : store := MkStore None 0 0 0.
-Definition init : st := MkSt 0 [] [] [] Init [] [] 0 init_store.
+Definition init : st := MkSt 0 [] [] [] Init [] [] 0 init_store 0.
 
+(* Ticker.Stop (a ticker that was never created stays absent); clock.Every in the "running" task *)
+Definition tk_stop (t : N) : N := if t =? 0 then 0 else 2.
+Definition tk_arm (q : quirks) (t : N) : N := if q_ticker_once q then (if t =? 0 then 1 else t) else 1.
+(* status change; leaving for Paused stops the checkpoint ticker (both places in job.go that set Paused do) *)
 Definition set_stat (s : st) (x : status) : st :=
-  MkSt (now s) (ops s) (srs s) (hb s) x (a_ops s) (a_srs s) (dep_ck s) (sto s).
+  MkSt (now s) (ops s) (srs s) (hb s) x (a_ops s) (a_srs s) (dep_ck s) (sto s)
+       (match x with Paused => tk_stop (ticker s) | _ => ticker s end).
+(* the queued "running" task of job.start: status Running and a fresh ticker *)
+Definition go_running (c : cfg) (s : st) : st :=
+  MkSt (now s) (ops s) (srs s) (hb s) Running (a_ops s) (a_srs s) (dep_ck s) (sto s) (tk_arm (qk c) (ticker s)).
 Definition set_sto (s : st) (x : store) : st :=
-  MkSt (now s) (ops s) (srs s) (hb s) (stat s) (a_ops s) (a_srs s) (dep_ck s) x.
+  MkSt (now s) (ops s) (srs s) (hb s) (stat s) (a_ops s) (a_srs s) (dep_ck s) x (ticker s).
 
 (* ---------- observations *)
 Record dep := MkDep { d_ops : list N; d_srs : list N; d_ck : list N; d_peers : bool }.
@@ -88,7 +98,7 @@ Definition purge (c : cfg) (s : st) : st :=
        (filter (fun n => negb (is_dead c s (true, n))) (ops s))
        (filter (fun n => negb (is_dead c s (false, n))) (srs s))
        (filter (fun e => negb (expired c (now s) e)) (hb s))
-       (stat s) (a_ops s) (a_srs s) (dep_ck s) (sto s).
+       (stat s) (a_ops s) (a_srs s) (dep_ck s) (sto s) (ticker s).
 
 (* Assembly.Healthy *)
 Definition healthy (s : st) : bool :=
@@ -107,7 +117,7 @@ Definition start_begin (c : cfg) (s : st) : st * list dep :=
                    end in
   let so' := MkStore kept (completed so) (ctr so)
                      (if q_splitters_accumulate (qk c) then splitters so + 1 else 1) in
-  (MkSt (now s) (ops s) (srs s) (hb s) Starting ao ar (completed so) so',
+  (MkSt (now s) (ops s) (srs s) (hb s) Starting ao ar (completed so) so' (ticker s),
    [MkDep ao ar (map (fun _ => completed so) ao) true]).
 
 (* job.evaluateClusterStatus *)
@@ -188,7 +198,7 @@ Inductive op :=
 | ODeregOp (n : N) | ODeregSr (n : N)
 | OAdv (ms : N)                         (* the clock advances; nothing is evaluated *)
 | OFin (ok : bool)                      (* the start in flight ends: every Deploy returned / one failed *)
-| OTick                                 (* the checkpoint ticker fires (it exists only while Running) *)
+| OTick                                 (* the harness ticks the "checkpointing" label: every ticker alive fires *)
 | OSavepoint                            (* Job.HandleCreateSavepoint: o_cid = the id returned, o_res = 1 on error *)
 | OAckOp (n id : N) | OAckSr (n id : N).
 
@@ -197,39 +207,37 @@ Definition mk_obs (s : st) (ds : list dep) : obs := MkObs (status_code (stat s))
 Definition step (c : cfg) (s : st) (o : op) : st * obs :=
   match o with
   | ORegOp n =>
-      let s1 := MkSt (now s) (ins n (ops s)) (srs s) (hb_set (true, n) (now s) (hb s)) (stat s) (a_ops s) (a_srs s) (dep_ck s) (sto s) in
+      let s1 := MkSt (now s) (ins n (ops s)) (srs s) (hb_set (true, n) (now s) (hb s)) (stat s) (a_ops s) (a_srs s) (dep_ck s) (sto s) (ticker s) in
       let '(s2, ds) := evaluate c s1 in (s2, mk_obs s2 ds)
   | ORegSr n =>
-      let s1 := MkSt (now s) (ops s) (ins n (srs s)) (hb_set (false, n) (now s) (hb s)) (stat s) (a_ops s) (a_srs s) (dep_ck s) (sto s) in
+      let s1 := MkSt (now s) (ops s) (ins n (srs s)) (hb_set (false, n) (now s) (hb s)) (stat s) (a_ops s) (a_srs s) (dep_ck s) (sto s) (ticker s) in
       let '(s2, ds) := evaluate c s1 in (s2, mk_obs s2 ds)
   | ODeregOp n =>
-      let s1 := MkSt (now s) (rem n (ops s)) (srs s) (hb s) (stat s) (a_ops s) (a_srs s) (dep_ck s) (sto s) in
+      let s1 := MkSt (now s) (rem n (ops s)) (srs s) (hb s) (stat s) (a_ops s) (a_srs s) (dep_ck s) (sto s) (ticker s) in
       let '(s2, ds) := evaluate c s1 in (s2, mk_obs s2 ds)
   | ODeregSr n =>
-      let s1 := MkSt (now s) (ops s) (rem n (srs s)) (hb s) (stat s) (a_ops s) (a_srs s) (dep_ck s) (sto s) in
+      let s1 := MkSt (now s) (ops s) (rem n (srs s)) (hb s) (stat s) (a_ops s) (a_srs s) (dep_ck s) (sto s) (ticker s) in
       let '(s2, ds) := evaluate c s1 in (s2, mk_obs s2 ds)
   | OAdv ms =>
-      let s1 := MkSt (now s + ms) (ops s) (srs s) (hb s) (stat s) (a_ops s) (a_srs s) (dep_ck s) (sto s) in
+      let s1 := MkSt (now s + ms) (ops s) (srs s) (hb s) (stat s) (a_ops s) (a_srs s) (dep_ck s) (sto s) (ticker s) in
       (s1, mk_obs s1 [])
   | OFin ok =>
       match stat s with
       | Starting =>
           if ok then
-            let '(s2, ds) := evaluate c (set_stat s Running) in
+            let '(s2, ds) := evaluate c (go_running c s) in
             (s2, MkObs (status_code (stat s2)) ds [] 0 0 0 (dep_ck s + 1))
           else
             let '(s2, ds) := evaluate c (set_stat s Paused) in (s2, mk_obs s2 ds)
       | _ => (s, mk_obs s [])
       end
-  | OTick =>
-      match stat s with
-      | Running =>
+  | OTick =>                               (* fires only a ticker that is alive, whatever the status *)
+      if ticker s =? 1 then
           match create_checkpoint (sto s) (a_ops s) (a_srs s) with
           | (so, Some id) => let s1 := set_sto s so in (s1, MkObs (status_code (stat s1)) [] (a_srs s) id 0 0 0)
           | (_, None) => (s, mk_obs s [])
           end
-      | _ => (s, mk_obs s [])
-      end
+      else (s, mk_obs s [])
   | OSavepoint =>
       match stat s with
       | Running =>
